@@ -419,12 +419,13 @@ func selfTest(r *vrun.Run) {
 	}
 	// virtual clock: a 1 h sleep must not take real time
 	t0 := time.Now()
-	var virt time.Duration
+	vc := make(chan time.Duration, 1)
 	synctest.Run(func() {
 		s := time.Now()
 		time.Sleep(time.Hour)
-		virt = time.Since(s)
+		vc <- time.Since(s)
 	})
+	virt := <-vc
 	if virt != time.Hour || time.Since(t0) > 5*time.Second {
 		r.Fatalf("synctest virtual clock not in effect (virtual %v, real %v)", virt, time.Since(t0))
 	}
